@@ -1,5 +1,132 @@
 package main
 
-// selfTest (thorough tier): run the property's rules against seeded mutants of the current tree.
+// Thorough tier: checker self-test against the kept seeded changes.
+//
+// For the property being checked, every confirmed seeded change under <verif>/seeded/<name>/ (patch.diff + meta.json,
+// produced by independent sub-agents and confirmed to break the property while the pinned tests keep passing) is applied to
+// a scratch copy of the CURRENT working tree of the repository (outside the repository and the verification directory,
+// removed afterwards); the scratch copy is type-checked and the same rules are run on it. A seed the rules do not flag is a
+// weakness of the checker, not of the repository: it is recorded in the evidence (and printed as SELFTEST-MISS) but never
+// turned into a VIOLATION. Nothing under test is executed.
+
+import (
+	"encoding/json"
+	"fmt"
+	"os"
+	"os/exec"
+	"path/filepath"
+	"sort"
+	"strings"
+)
+
+type seedMeta struct {
+	Seed      string   `json:"seed"`
+	Breaks    []string `json:"breaks_property"`
+	Confirmed bool     `json:"confirmed"`
+}
+
 func selfTest(p *Prog, r *Result, verifDir string, seed int) {
+	dirs, _ := filepath.Glob(filepath.Join(verifDir, "seeded", "*", "meta.json"))
+	sort.Strings(dirs)
+	type outcome struct {
+		Seed     string   `json:"seed"`
+		Applied  bool     `json:"applied"`
+		Detected bool     `json:"detected"`
+		Rules    []string `json:"rules,omitempty"`
+		Note     string   `json:"note,omitempty"`
+	}
+	var outs []outcome
+	for _, mf := range dirs {
+		var m seedMeta
+		b, err := os.ReadFile(mf)
+		if err != nil || json.Unmarshal(b, &m) != nil || !m.Confirmed {
+			continue
+		}
+		mine := false
+		for _, id := range m.Breaks {
+			if id == r.ID {
+				mine = true
+			}
+		}
+		if !mine {
+			continue
+		}
+		o := outcome{Seed: m.Seed}
+		scratch, err := os.MkdirTemp("/var/tmp", "verif-selftest-")
+		if err != nil {
+			o.Note = "cannot create scratch dir: " + err.Error()
+			outs = append(outs, o)
+			continue
+		}
+		func() {
+			defer os.RemoveAll(scratch)
+			// copy the working tree (without .git)
+			cp := exec.Command("rsync", "-a", "--exclude", ".git", p.Repo+"/", scratch+"/")
+			if out, err := cp.CombinedOutput(); err != nil {
+				o.Note = "copy failed: " + strings.TrimSpace(string(out))
+				return
+			}
+			patch := filepath.Join(filepath.Dir(mf), "patch.diff")
+			ap := exec.Command("patch", "-p1", "-s", "--fuzz=3", "-i", patch)
+			ap.Dir = scratch
+			if out, err := ap.CombinedOutput(); err != nil {
+				o.Note = "patch no longer applies to the current tree: " + strings.TrimSpace(string(out))
+				return
+			}
+			o.Applied = true
+			sp, err := loadProg(scratch, false)
+			if err != nil {
+				o.Note = "seeded tree does not type-check: " + err.Error()
+				return
+			}
+			sr := newResult(r.ID)
+			func() {
+				defer func() {
+					if e := recover(); e != nil {
+						sr.undecided("panic", "checker", "", fmt.Sprint(e))
+					}
+				}()
+				registry[r.ID](sp, sr, "quick")
+			}()
+			// apply count minima like finish() does
+			counts := map[string]int{}
+			for _, ob := range sr.Obligs {
+				counts[ob.Rule]++
+			}
+			rules := map[string]bool{}
+			for rule, min := range sr.RuleMin {
+				if counts[rule] < min {
+					rules["count:"+rule] = true
+				}
+			}
+			base := map[string]bool{}
+			for _, ob := range r.Obligs {
+				if ob.Status != stOK {
+					base[ob.key()] = true
+				}
+			}
+			for _, ob := range sr.Obligs {
+				if ob.Status != stOK && !base[ob.key()] {
+					rules[ob.Rule] = true
+				}
+			}
+			for k := range rules {
+				o.Rules = append(o.Rules, k)
+			}
+			sort.Strings(o.Rules)
+			o.Detected = len(o.Rules) > 0
+		}()
+		outs = append(outs, o)
+	}
+	missed := 0
+	for _, o := range outs {
+		if o.Applied && !o.Detected {
+			missed++
+			fmt.Printf("SELFTEST-MISS property=%s seed=%s: the rules do not flag this confirmed property-breaking change (checker weakness, not a finding about the repository)\n", r.ID, o.Seed)
+		}
+	}
+	r.Tables["selftest_seeded_changes"] = outs
+	r.Analysed["selftest_seeds_tried"] = len(outs)
+	r.Analysed["selftest_seeds_missed"] = missed
+	r.observe("thorough tier: %d kept seeded change(s) for this property re-applied to a scratch copy of the current tree and analysed with the same rules; %d not flagged", len(outs), missed)
 }
